@@ -264,6 +264,101 @@ func doFnv(s string) {
 	}
 }
 
+// longProbe drives every length-sensitive entry point with inputs whose unit count sits around the
+// widths a counter could be narrowed to (2^8, 2^15, 2^16): too long to be useful as Coq cases (the
+// model has no width anywhere, its theorems are for every length), so these are compared with the
+// standard library only.  The description carries the length and the pattern, not the units.
+func longProbe() {
+	pats := []struct {
+		name string
+		at   func(i int) rune
+	}{
+		{"ascii", func(i int) rune { return rune('a' + i%26) }},
+		{"bmp", func(i int) rune { return rune(0x3041 + i%80) }},
+		{"mixed", func(i int) rune {
+			if i%3 == 0 {
+				return rune(0x1F600 + i%64)
+			}
+			return rune('A' + i%26)
+		}},
+	}
+	for _, n := range []int{254, 255, 256, 257, 32767, 32768, 32769, 65534, 65535, 65536, 65537, 70001, 131072, 131075} {
+		for _, pt := range pats {
+			rs := make([]rune, 0, n)
+			units := 0
+			for i := 0; units < n; i++ {
+				r := pt.at(i)
+				w := 1
+				if r >= 0x10000 {
+					w = 2
+				}
+				if units+w > n {
+					r, w = 'z', 1
+				}
+				rs = append(rs, r)
+				units += w
+			}
+			s := string(rs)
+			want := utf16.Encode(rs)
+			desc := map[string]interface{}{"fn": "long", "units": n, "pattern": pt.name}
+			out.Count("long", fmt.Sprint(n, pt.name), true)
+			func() {
+				defer func() {
+					if recover() != nil {
+						out.Fail("a UTF-16 entry point panicked on a long input", "long-panic", desc)
+					}
+				}()
+				t := append(append(make([]uint16, 0, n+1), want...), 0)
+				if got := winapi.UTF16PtrToString(&t[0]); got != s {
+					desc["got_bytes"] = len(got)
+					desc["want_bytes"] = len(s)
+					out.Fail("UTF16PtrToString is not the standard decoding up to the first NUL (long input)", "ptr-dec-std-long", desc)
+				}
+				if got := winapi.UTF16ToString(t); got != s {
+					out.Fail("UTF16ToString is not the standard decoding up to the first NUL (long input)", "dec-std-long", desc)
+				}
+				if got := winapi.UTF16Decode(want); !eqR(got, rs) {
+					out.Fail("UTF16Decode differs from the standard decoding (long input)", "dec-std-long", desc)
+				}
+				v, err := winapi.UTF16FromString(s)
+				if err != nil || !eq16(v, t) {
+					out.Fail("UTF16FromString is not the standard encoding plus one terminator (long input)", "from-std-long", desc)
+				}
+				p, err := winapi.UTF16PtrFromString(s)
+				if err != nil {
+					out.Fail("UTF16PtrFromString failed on a NUL-free string (long input)", "ptr-from-err-long", desc)
+				} else if back := winapi.UTF16PtrToString(p); back != s {
+					desc["got_bytes"] = len(back)
+					desc["want_bytes"] = len(s)
+					out.Fail("UTF16PtrToString(UTF16PtrFromString(s)) != s (long input)", "ptr-roundtrip-long", desc)
+				}
+				if e := winapi.UTF16EncodeStd(rs); !eq16(e, t) && !eq16(e, want) {
+					out.Fail("UTF16EncodeStd differs from the standard encoding (long input)", "enc-std-long", desc)
+				}
+				h := fnv.New32()
+				h.Write([]byte(s))
+				if winapi.FnvHash(s) != h.Sum32() {
+					out.Fail("FnvHash differs from 32-bit FNV-1 (long input)", "fnv-long", desc)
+				}
+				// registry: a REG_SZ / REG_MULTI_SZ value of that many units
+				b := make([]byte, 0, 2*n+4)
+				for _, u := range want {
+					b = append(b, byte(u), byte(u>>8))
+				}
+				b = append(b, 0, 0)
+				e := regedit.Entry{Type: 1, Data: b}
+				if got, err := e.ToString(); err != nil || got != s {
+					out.Fail("Entry.ToString is not the value's text (long input)", "entry-string-long", desc)
+				}
+				e = regedit.Entry{Type: 7, Data: append(b, 0, 0)}
+				if got, err := e.ToStringList(); err != nil || len(got) != 1 || got[0] != s {
+					out.Fail("Entry.ToStringList is not the value's list (long input)", "entry-list-long", desc)
+				}
+			}()
+		}
+	}
+}
+
 func regErr(err error) string {
 	switch err {
 	case registry.ErrUnexpectedType:
@@ -423,6 +518,7 @@ func main() {
 			"distinct = distinct Coq case term, non-trivial = non-empty input (registry: >= 3 data bytes)")
 	out.ShardSize = 1500
 	initGuard()
+	longProbe()
 	out.Extra("guard_page", guard != nil)
 	rng := vh.NewRand(fl.Seed)
 	thorough := fl.Tier == "thorough"
